@@ -266,7 +266,7 @@ func (e *Engine) discharge(budget time.Duration, workers int) {
 			defer wg.Done()
 			for r := range rch {
 				r.j.inst.Res = solve(r.script, budget)
-				if d := os.Getenv("GOVERIF_DUMP"); d != "" && r.j.inst.Res.Verdict != "unsat" {
+				if d := os.Getenv("GOVERIF_DUMP"); d != "" && (r.j.inst.Res.Verdict != "unsat" || os.Getenv("GOVERIF_DUMPALL") != "") {
 					os.WriteFile(filepath.Join(d, sanitize(r.j.o.Name)+".smt2"), []byte(r.script), 0644)
 				}
 			}
